@@ -26,7 +26,7 @@ BUDGET = {
     "quick": {"cases": 7200, "seconds": 90, "shards": 8},
     "thorough": {"cases": 120000, "seconds": 900, "shards": 16},
 }
-REQUIRED_OBS = ["model_loaded_into_used_object", "exhaustive_small_graph_cases", "queries_judged:knn", "queries_judged:unsup", "tie_at_kth", "query_is_training_copy", "density_between_costs", "k>=2_queries",
+REQUIRED_OBS = ["model_loaded_into_used_object", "predict_after_late_propagation", "exhaustive_small_graph_cases", "queries_judged:knn", "queries_judged:unsup", "tie_at_kth", "query_is_training_copy", "density_between_costs", "k>=2_queries",
                 "multiple_admissible", "pre_computed_cases", "asymmetric_metric_cases"]
 MIN_NONTRIVIAL = 100
 
@@ -161,26 +161,39 @@ def check(case):
         return res
     batch = list(zip(map(int, c.value[0]), map(int, c.value[1]))) if kind == "unsup" else [int(v) for v in c.value]
     nontrivial = False
-    for x in range(len(Q)):
+    late = kind == "unsup" and not case.get("propagate") and not case.get("I_onthefly")
+    rounds = [("", single, batch)] + ([(" after a later propagate_labels", None, None)] if late else [])
+    for rtag, single_r, batch_r in rounds:
+      if rtag:
+        # labels propagated AFTER the model has already predicted: the next prediction must follow the labels the model holds now
+        m.propagate_labels()
+        c2 = knncase.predict(case, m, Q, IQ)
+        if not c2.ok:
+            res.violate("exception", f"C14/exception/predict/{kind}/{type(c2.exc).__name__}", f"predict after propagate_labels raised at {c2.where}: {str(c2.exc)[:200]}")
+            return res
+        res.see("predict_after_late_propagation")
+        batch_r = list(zip(map(int, c2.value[0]), map(int, c2.value[1])))
+      for x in range(len(Q)):
         dq = DQ[x]
         if not np.all(np.isfinite(dq)):
             res.see("query_skipped_nonfinite")
             continue
         ok, info = admissible(m, kind, dq)
-        res.see("queries_judged:" + kind)
-        if info["tie"]:
-            res.see("tie_at_kth")
-        if info["copy"]:
-            res.see("query_is_training_copy")
-        if info["between"]:
-            res.see("density_between_costs")
-        if info["k"] >= 2:
-            res.see("k>=2_queries")
-        if len(ok) > 1:
-            res.see("multiple_admissible")
-        if info["k"] >= 2 and info["distinct_results"] >= 2 and info["between"]:
-            nontrivial = True
-        for tag, got in (("single-sample call", single[x]), ("batch call", batch[x])):
+        if not rtag:
+            res.see("queries_judged:" + kind)
+            if info["tie"]:
+                res.see("tie_at_kth")
+            if info["copy"]:
+                res.see("query_is_training_copy")
+            if info["between"]:
+                res.see("density_between_costs")
+            if info["k"] >= 2:
+                res.see("k>=2_queries")
+            if len(ok) > 1:
+                res.see("multiple_admissible")
+            if info["k"] >= 2 and info["distinct_results"] >= 2 and info["between"]:
+                nontrivial = True
+        for tag, got in ((("single-sample call", single_r[x]),) if single_r is not None else ()) + (("batch call" + rtag, batch_r[x]),):
             if got not in ok:
                 res.violate("rule", f"C14/result-not-admissible/{kind}",
                             f"{kind}/{case['metric']} k={info['k']}: query {x} ({tag}) returned {got}, the exhaustive k-nearest max-min rule admits only {sorted(ok)}")
